@@ -49,32 +49,102 @@ theorem runStages_world (root : List Str) (ms : List Mut) : ∀ (p : ShellPart) 
 
 /-! ### exec -/
 
+theorem splitLast_append {α : Type} (init : List α) (l : α) : splitLast (init ++ [l]) = some (init, l) := by
+  induction init with
+  | nil => rfl
+  | cons x r ih =>
+    cases r with
+    | nil => rfl
+    | cons y r' => simp only [List.cons_append] at ih ⊢; simp [splitLast, ih]
+
+theorem splitLast_eq {α : Type} (ms : List α) : ∀ (init : List α) (l : α), splitLast ms = some (init, l) → ms = init ++ [l] := by
+  induction ms with
+  | nil => intro init l h; simp [splitLast] at h
+  | cons x r ih =>
+    intro init l h
+    cases r with
+    | nil => simp [splitLast] at h; obtain ⟨rfl, rfl⟩ := h; rfl
+    | cons y r' =>
+      simp only [splitLast, Option.map_eq_some_iff] at h
+      obtain ⟨q, hq, hq'⟩ := h
+      have := ih q.1 q.2 (by simpa using hq)
+      cases hq'
+      simp [this]
+
 theorem exec_shell (root : List Str) (c : Ctx) (ms : List Mut) (p : ShellPart) (w : World) :
-    (exec root c ms p w).shell = prepare c p := by
-  cases c <;> simp [exec, execWith, leak_id, runStages_shell]
+    (exec root c ms p w).shell = parentOwn root c ms p := by
+  cases c
+  case pl =>
+    simp only [exec, execWith, parentOwn, prepare]
+    cases hs : splitLast ms with
+    | none => rfl
+    | some q =>
+      obtain ⟨init, l⟩ := q
+      simp only [runStages_shell]
+      split <;> simp [leak_id]
+  all_goals simp [exec, execWith, parentOwn, leak_id, runStages_shell]
 
 theorem exec_world (root : List Str) (c : Ctx) (ms : List Mut) (p : ShellPart) (w : World)
     (h : ∀ m ∈ ms, m.touchesWorld = false) : (exec root c ms p w).world = w := by
-  cases c <;> simp [exec, execWith, childRun, runMuts_world root ms _ h, runStages_world root ms _ _ h]
-
-theorem exec_aborted (root : List Str) (c : Ctx) (ms : List Mut) (p : ShellPart) (w : World)
-    (he : c = .stages → stagesErr fresh root ms (prepare c p) = false) : (exec root c ms p w).aborted = false := by
-  cases c <;> simp_all [exec, execWith]
+  cases c
+  case pl =>
+    simp only [exec, execWith, prepare]
+    cases hs : splitLast ms with
+    | none => rfl
+    | some q =>
+      obtain ⟨init, l⟩ := q
+      have hm := splitLast_eq ms init l hs
+      have hi : ∀ m ∈ init, m.touchesWorld = false := fun m hmem => h m (by simp [hm, hmem])
+      have hl : l.touchesWorld = false := h l (by simp [hm])
+      simp only [runStages_world root init _ _ hi]
+      split
+      · simp [stepWorld_id l w hl]
+      · exact runMuts_world root [l] _ (fun x hx => by simp at hx; subst hx; exact hl)
+  all_goals simp [exec, execWith, childRun, runMuts_world root ms _ h, runStages_world root ms _ _ h]
 
 theorem exec_eq (root : List Str) (c : Ctx) (ms : List Mut) (p : ShellPart) (w : World)
     (hw : ∀ m ∈ ms, m.touchesWorld = false)
-    (he : c = .stages → stagesErr fresh root ms (prepare c p) = false) :
+    (he : (exec root c ms p w).aborted = false) :
     exec root c ms p w =
-      { shell := prepare c p, world := w, status := (exec root c ms p w).status,
+      { shell := parentOwn root c ms p, world := w, status := (exec root c ms p w).status,
         out := (exec root c ms p w).out, aborted := false } := by
   have h1 := exec_shell root c ms p w
   have h2 := exec_world root c ms p w hw
-  have h3 := exec_aborted root c ms p w he
   cases hx : exec root c ms p w with
   | mk sh wo st ou ab =>
-    rw [hx] at h1 h2 h3
-    simp at h1 h2 h3
-    simp [h1, h2, h3]
+    rw [hx] at h1 h2 he
+    simp at h1 h2 he
+    simp [h1, h2, he]
+
+/-- outside pipelines of builtin stages nothing abandons the parent's line -/
+theorem exec_aborted (root : List Str) (c : Ctx) (ms : List Mut) (p : ShellPart) (w : World)
+    (hc : c ≠ .stages ∧ c ≠ .pl) : (exec root c ms p w).aborted = false := by
+  cases c <;> simp_all [exec, execWith]
+
+theorem exec_aborted_stages (root : List Str) (ms : List Mut) (p : ShellPart) (w : World) :
+    (exec root .stages ms p w).aborted = stagesErr fresh root ms p := by
+  simp [exec, execWith, prepare]
+
+/-! ### pipelines whose last command is a mutator -/
+
+theorem pl_lastpipe (root : List Str) (init : List Mut) (l : Mut) (p : ShellPart) (w : World)
+    (h : lastpipeOn p = true) :
+    (exec root .pl (init ++ [l]) p w).shell = (stepShell root l p).sh ∧
+    (exec root .pl (init ++ [l]) p w).status = (stepShell root l p).status ∧
+    (exec root .pl (init ++ [l]) p w).out = (stepShell root l p).out := by
+  simp [exec, execWith, prepare, splitLast_append, h, runStages_shell]
+
+theorem pl_nolastpipe (root : List Str) (init : List Mut) (l : Mut) (p : ShellPart) (w : World)
+    (h : lastpipeOn p = false) (hi : init ≠ []) :
+    (exec root .pl (init ++ [l]) p w).shell = p := by
+  have : init.isEmpty = false := by cases init <;> simp_all
+  simp [exec, execWith, prepare, splitLast_append, h, this, runStages_shell, leak_id]
+
+theorem pl_init_irrelevant (root : List Str) (i₁ i₂ : List Mut) (l : Mut) (p : ShellPart) (w : World)
+    (h : i₁.isEmpty = i₂.isEmpty) :
+    (exec root .pl (i₁ ++ [l]) p w).shell = (exec root .pl (i₂ ++ [l]) p w).shell := by
+  simp only [exec, execWith, prepare, splitLast_append, runStages_shell, h]
+  split <;> simp [leak_id]
 
 /-! ### schedules -/
 
@@ -107,26 +177,31 @@ theorem sched_parent (root : List Str) (es : List (Side × Mut)) : ∀ (x : Pair
 
 /-! ### a shared component leaks -/
 
+/-- a shell value with nothing in it -/
+def bareShell (cwd : List Str) : ShellPart :=
+  { vars := [], funcs := [], setopts := [], shopts := [], aliases := [], traps := [], cwd := cwd, args := [], fds := [0, 1, 2] }
+
+
 theorem sharing_leaks (sh : Comp → Bool) (h : ∃ c, sh c = true) :
     ∃ (ms : List Mut) (p : ShellPart) (w : World),
       (execWith sh (fun _ => false) [] .paren ms p w).shell ≠ prepare .paren p := by
   obtain ⟨c, hc⟩ := h
   cases c with
-  | env => exact ⟨[.assign ['v'] ['x']], defaultShell [], ⟨0, 0⟩, by
-      simp [execWith, childRun, runMuts, runStep, stepShell, cloneWith, leakWith, prepare, defaultShell, hc, aget, aset]⟩
-  | funcs => exact ⟨[.defun ['f'] ['x']], defaultShell [], ⟨0, 0⟩, by
-      simp [execWith, childRun, runMuts, runStep, stepShell, cloneWith, leakWith, prepare, defaultShell, hc, aset]⟩
-  | options => exact ⟨[.seto ['o'] true], defaultShell [], ⟨0, 0⟩, by
-      simp [execWith, childRun, runMuts, runStep, stepShell, cloneWith, leakWith, prepare, defaultShell, hc, aset]⟩
-  | aliases => exact ⟨[.alias ['a'] ['x']], defaultShell [], ⟨0, 0⟩, by
-      simp [execWith, childRun, runMuts, runStep, stepShell, cloneWith, leakWith, prepare, defaultShell, hc, aset]⟩
-  | traps => exact ⟨[.trap ['I'] ['x']], defaultShell [], ⟨0, 0⟩, by
-      simp [execWith, childRun, runMuts, runStep, stepShell, cloneWith, leakWith, prepare, defaultShell, hc, aset]⟩
-  | workingDir => exact ⟨[.cd ['.', '.']], defaultShell [['a']], ⟨0, 0⟩, by
-      simp [execWith, childRun, runMuts, runStep, stepShell, cloneWith, leakWith, prepare, defaultShell, hc, cdTarget, dirExists]⟩
-  | args => exact ⟨[.setargs [['x']]], defaultShell [], ⟨0, 0⟩, by
-      simp [execWith, childRun, runMuts, runStep, stepShell, cloneWith, leakWith, prepare, defaultShell, hc]⟩
-  | openFiles => exact ⟨[.fdopen 7], defaultShell [], ⟨0, 0⟩, by
-      simp [execWith, childRun, runMuts, runStep, stepShell, cloneWith, leakWith, prepare, defaultShell, hc, insertSorted]⟩
+  | env => exact ⟨[.assign ['v'] ['x']], bareShell [], ⟨0, 0⟩, by
+      simp [execWith, childRun, runMuts, runStep, stepShell, cloneWith, leakWith, prepare, bareShell, hc, aget, aset]⟩
+  | funcs => exact ⟨[.defun ['f'] ['x']], bareShell [], ⟨0, 0⟩, by
+      simp [execWith, childRun, runMuts, runStep, stepShell, cloneWith, leakWith, prepare, bareShell, hc, aset]⟩
+  | options => exact ⟨[.seto ['o'] true], bareShell [], ⟨0, 0⟩, by
+      simp [execWith, childRun, runMuts, runStep, stepShell, cloneWith, leakWith, prepare, bareShell, hc, aset]⟩
+  | aliases => exact ⟨[.alias ['a'] ['x']], bareShell [], ⟨0, 0⟩, by
+      simp [execWith, childRun, runMuts, runStep, stepShell, cloneWith, leakWith, prepare, bareShell, hc, aset]⟩
+  | traps => exact ⟨[.trap ['I'] ['x']], bareShell [], ⟨0, 0⟩, by
+      simp [execWith, childRun, runMuts, runStep, stepShell, cloneWith, leakWith, prepare, bareShell, hc, aset]⟩
+  | workingDir => exact ⟨[.cd ['.', '.']], bareShell [['a']], ⟨0, 0⟩, by
+      simp [execWith, childRun, runMuts, runStep, stepShell, cloneWith, leakWith, prepare, bareShell, hc, cdTarget, dirExists]⟩
+  | args => exact ⟨[.setargs [['x']]], bareShell [], ⟨0, 0⟩, by
+      simp [execWith, childRun, runMuts, runStep, stepShell, cloneWith, leakWith, prepare, bareShell, hc]⟩
+  | openFiles => exact ⟨[.fdopen 7], bareShell [], ⟨0, 0⟩, by
+      simp [execWith, childRun, runMuts, runStep, stepShell, cloneWith, leakWith, prepare, bareShell, hc, insertSorted]⟩
 
 end BrushVerif.Subshell
